@@ -52,7 +52,16 @@ func blockToLines(b deps.Block) []Line {
 func (l Lines) Len() int         { return len(l.lines) }
 func (l Lines) Index(i int) Line { return l.lines[i] }
 
+// valid checks if lineIdx is a number of an existing line.
+func (l Lines) valid(lineIdx int) bool { return lineIdx >= 0 && lineIdx < len(l.lines) }
+
+// SetMark sets mark of a line. Lines which do not exist cannot be marked, so
+// SetMark does nothing for those.
 func (l *Lines) SetMark(lineIdx int, m Mark) {
+	if !l.valid(lineIdx) {
+		return
+	}
+
 	l.lines[lineIdx].setMark(m)
 	l.marks[lineIdx] = struct{}{}
 }
@@ -83,6 +92,13 @@ func (l *Lines) reloadAll() {
 }
 
 func (l *Lines) Move(fromLine int, toLine int) error {
+	if !l.valid(fromLine) {
+		return fmt.Errorf("from is not a line number: %d", fromLine)
+	}
+	if !l.valid(toLine) {
+		return fmt.Errorf("to is not a line number: %d", toLine)
+	}
+
 	from, to := l.Index(fromLine), l.Index(toLine)
 
 	fromBlock, fromBlockOK := from.Block()
@@ -124,6 +140,10 @@ func (l *Lines) Move(fromLine int, toLine int) error {
 }
 
 func (l Lines) Block(lineIdx int) (deps.Block, bool) {
+	if !l.valid(lineIdx) {
+		return deps.Block{}, false
+	}
+
 	idx, ok := l.lines[lineIdx].Block()
 	if !ok {
 		return deps.Block{}, false
